@@ -46,7 +46,18 @@ func Run(doc map[string]any, sql string, opts ...genql.QueryOption) *Out {
 	return RunCfg(Seq, nil, doc, sql, opts...)
 }
 
+// BeforeRun, when set, is called before every controlled New+Exec (not recursively).  The
+// history-independence checks use it to put other - mostly failing - operations in front of every
+// execution whose result is compared with a reference.
+var BeforeRun func()
+var inBeforeRun bool
+
 func RunCfg(cfg vrt.Config, prefix []int32, doc map[string]any, sql string, opts ...genql.QueryOption) *Out {
+	if BeforeRun != nil && !inBeforeRun {
+		inBeforeRun = true
+		BeforeRun()
+		inBeforeRun = false
+	}
 	o := &Out{}
 	o.Res = vrt.Run(cfg, prefix, func() { Call(o, doc, sql, opts...) })
 	o.GPanic = o.Res.GPanic
